@@ -241,6 +241,13 @@ Theorem C04_earlier_session_callback_refuted : exists hs s os, mrun false blank 
 Proof. destruct ex_f04f as [s [os H]]. exists ex_hist, s, os. exact H. Qed.
 Print Assumptions C04_earlier_session_callback_refuted.
 
+(* A disconnect that removes the pending callbacks while iterating the live list leaves every second one registered: with
+   three default-value requests unanswered at the cut, the callback of the second is invoked in the next session. *)
+Theorem C04_every_second_callback_survives_refuted : exists hs s os, mrun_alt blank hs = Some (s, os) /\
+  misc_calls (concat os) = [(2, 1, MDefault (VInt 1027)); (4, 1, MDefault (VInt 1027))].
+Proof. destruct ex_alt as [s [os H]]. exists ex_hist3, s, os. exact H. Qed.
+Print Assumptions C04_every_second_callback_survives_refuted.
+
 (* What set_value does with a name is a function of the table of the session it is called in: unknown there =>
    KeyError; read-only there => AttributeError; otherwise the index and the declared type of THAT table. *)
 Theorem C04_set_resolves_in_current_table : forall c s name v, s_updated s = true ->
